@@ -22,8 +22,9 @@ ASSUMPTIONS = [
     "all TypedDict classes below one encoded type were constructed in one module (same_site); fresh and rewritten "
     "types: monkeytype.typing, decoded types: monkeytype.encoding",
 ]
-PARTIAL = ["that every type produced by the inference model satisfies `inferable` (unions in typing's normal form) is checked "
-           "per case by union_nfb/wf_tyb in the verdict (code 3 otherwise), not proved about Model/Infer.v",
+PARTIAL = ["that every type the tracer stores (an output of get_type) satisfies `inferable` is a theorem of the composition "
+           "(get_type_inferable, Props/C01.v); for the other type streams of this tie (rewriter outputs, generated types) it is "
+           "checked per case by union_nfb/wf_tyb in the verdict (code 3 otherwise)",
            "the decoder's behaviour on malformed dicts (which exception is raised) is tied by the decoder edge stream only; "
            "no theorem is stated about it (C10 owns stale rows)"]
 
@@ -346,6 +347,24 @@ def _run(ctx, rnd, quick, ct, ft, it, names, mod, CallTraceRow, CallTrace, type_
         for X in sentinel_types(mod):
             cases.append(_trace_case(CallTrace, CallTraceRow, func, expect, kind, label, {"a": X}, X, X,
                                      "type", "type", ct, ft, it, names, dist))
+    # every class of the streams (value stream, grammar stream, fixture package; incl. falsy class objects and classes
+    # named like typing forms) as a TOP-LEVEL return type, yield type and argument type, bare and as Type[C]
+    from typing import Type
+    from harness import fxclasses as fx
+    stream_classes, seen_ids = [], set()
+    for c in (list(ct.code) + list(getattr(fx, "USER_CLASSES", [])) + [getattr(fx, "Falsy", None), getattr(fx, "WithCall", None)]
+              + list(getattr(fx, "NAMED_LIKE_TYPING", [])) + [k for k, _ in mod.CLASSES.values()] + list(mod.SENTINELS)):
+        if isinstance(c, type) and id(c) not in seen_ids:
+            seen_ids.add(id(c))
+            stream_classes.append(c)
+    for i, C in enumerate(stream_classes):
+        for label, a, r, y in (("mfunc", C, C, Type[C]), ("gen", Type[C], Type[C], C)):
+            func, expect, kind = mod.FUNCS[label]
+            cases.append(_trace_case(CallTrace, CallTraceRow, func, expect, kind, label, {"a": a}, r, y,
+                                     "type", "type", ct, ft, it, names, dist))
+            dist["trace_top_level_class_types"] += 1
+            if not C:
+                dist["trace_top_level_falsy_class"] += 1
     # a few traces whose types cannot be serialised (serialize_traces drops them)
     from typing import Tuple
     for label in ("mfunc", "K.meth"):
@@ -414,7 +433,8 @@ def _run(ctx, rnd, quick, ct, ft, it, names, mod, CallTraceRow, CallTrace, type_
                 "(nested, local, rebound, deleted, foreign-module, and user classes named NoneType / NotImplementedType / mappingproxy) at every k in {0,1,2,3,10,200}, the typegen grammar stream, every "
                 "shipped rewriter's output on those, and decoded types re-used as originals, de-duplicated by reified term; each goes "
                 "through type_to_json, type_from_json, re-encoding of the decoded type and encoding of a field-reversed copy. "
-                "decoder edges: directed malformed dicts + single mutations of real encodings. traces: every fixture function kind (incl. names bound to non-function wrapper objects: lru_cache, decorator-class instances) x "
+                "decoder edges: directed malformed dicts + single mutations of real encodings. traces: every class of the streams (incl. falsy class objects and classes named like typing forms) as top-level return, "
+                "yield and argument type, bare and as Type[C]; every fixture function kind (incl. names bound to non-function wrapper objects: lru_cache, decorator-class instances) x "
                 "return {absent, NoneType, type} x yield {absent, NoneType, type} x 0-3 argument types (half of them TypedDict-bearing); "
                 "every trace is also built the other way round (argument dict in reverse insertion order, every TypedDict's fields "
                 "reversed, same site) and the raw stored strings of the two CallTraceRows must be identical; same raw-text test for "
